@@ -27,7 +27,11 @@ from fractions import Fraction
 import numpy as np
 
 PROP = 'C01'
-TARGETS = ['T20', 'T21', 'T22', 'T23', 'T24', 'T25', 'T26', 'T8', 'T1', 'T1b', 'T4', 'T12', 'T6', 'T7b']
+TARGETS = ['T20', 'T21', 'T22', 'T23', 'T24', 'T25', 'T26']
+# consumed, owned elsewhere: T8 (C02: _get_unsigned_dtype), T1 / T1b / T4 / T12 (C05: frame number, byte range, bit slice),
+# T6 (C04) / T7b (C12) (get_tile_array bounds, tile counts).  Regenerated so that C01's proofs speak about the current source;
+# a selector of theirs that breaks is their owner's alarm (evidence: stages.foreign_targets_broken), not a C01 violation.
+FOREIGN_TARGETS = ['T8', 'T1', 'T1b', 'T4', 'T12', 'T6', 'T7b']
 LEAN_MODULES = ['HdVerif.Props.C01']
 MODEL_MODULES = ['HdVerif.Model.SegEncode', 'HdVerif.Model.SegFrames']
 NAMESPACE = 'HdVerif.C01'
@@ -1780,9 +1784,15 @@ def _anchor_hashes():
     return out
 
 
+DRIFT_EXTRA_WALL_S = 40        # wall-time cap of the extra cases a drift buys, per shard
+
+
 def _drift_factor(ctx):
-    """DESIGN 5.4: a hand-modelled function whose source differs from the version the model was validated against
-    does not alarm; it only multiplies the case budget of the quick tier (a search heuristic)."""
+    """DESIGN 5.4: a hand-modelled function whose source differs from the version the model was validated against does not
+    alarm; it buys EXTRA generated cases in the quick tier (up to 4 x the budget) -- but only as many as fit into
+    DRIFT_EXTRA_WALL_S seconds per shard after the regular budget is done: a drift alone (say a foreign fix to an anchored
+    function) never multiplies the running time, never changes the verdict, and is recorded in the evidence (note
+    `anchor_drift`)."""
     global _DRIFT
     if _DRIFT is None:
         path = os.path.join(os.path.dirname(__file__), '..', 'anchors_C01.json')
@@ -1793,7 +1803,8 @@ def _drift_factor(ctx):
         cur = _anchor_hashes()
         _DRIFT = sorted(k for k in cur if ref.get(k) != cur[k])
         if _DRIFT:
-            ctx.note('anchor_drift (budget x4 in the quick tier): ' + ', '.join(_DRIFT))
+            ctx.note(f'anchor_drift (up to x4 generated cases in the quick tier, capped at {DRIFT_EXTRA_WALL_S} s of extra wall time '
+                     'per shard; no effect on the verdict): ' + ', '.join(_DRIFT))
     return 4 if (_DRIFT and ctx.tier == 'quick' and not ctx.search_mode) else 1
 
 
@@ -1944,11 +1955,20 @@ def run(ctx):
     import warnings
     warnings.simplefilter('ignore')
     named = streams(ctx)
-    n_cases = ctx.n(480, 3600) * _drift_factor(ctx)
+    n_base = ctx.n(480, 3600)
+    n_cases = n_base * _drift_factor(ctx)
 
     def case_job(k):
         def job(sub, reqs, pending):
+            import time
+            t_extra = None
             for idx in range(k, n_cases, SHARDS):
+                if idx >= n_base:           # extra cases bought by an anchor drift: only while they fit into the cap
+                    t_extra = t_extra or time.time()
+                    if time.time() - t_extra > DRIFT_EXTRA_WALL_S:
+                        sub.hist('drift_extra_cases', 'stopped at the wall-time cap')
+                        break
+                    sub.hist('drift_extra_cases', 'run')
                 run_case(sub, gen_case(sub, idx), reqs, pending)
         return job
     jobs = [[thunk for _n, thunk in named], [_many_segments], [_tiled]] + [[case_job(k)] for k in range(SHARDS)]
